@@ -97,6 +97,7 @@ class MultiTrackLargeVocabularyNotelikeTokeniser:
         prv_value = state_dict.get("prv_value", -1)
         prv_velocity = state_dict.get("prv_velocity", -1)
         prv_shift = state_dict.get("cur_time", 0)
+        max_note_end = cur_time
 
         # Sanity check
         if not len(sequences_bar) == self.num_tracks:
@@ -202,6 +203,7 @@ class MultiTrackLargeVocabularyNotelikeTokeniser:
                 prv_track = msg_channel
                 prv_value = msg_value
                 prv_velocity = msg_velocity
+                max_note_end = max(max_note_end, msg_time + msg_value)
             # Handle time signatures
             elif msg_type == MessageType.TIME_SIGNATURE:
                 if cur_time_bar > 0:
@@ -231,6 +233,10 @@ class MultiTrackLargeVocabularyNotelikeTokeniser:
 
         # Close bar and handle rest buffer
         if cur_time_bar > 0 and cur_bar_capacity_remaining > 0:
+            _apply_rest(cur_bar_capacity_remaining)
+
+        # Close further bars until the last note has ended
+        while max_note_end > cur_time:
             _apply_rest(cur_bar_capacity_remaining)
 
         # Update state dictionary
